@@ -293,8 +293,11 @@ func BuildUnion(query *Query, expr *sqlparser.Union) error {
 	slice = append(slice, leftDataArray...)
 	slice = append(slice, rightDataArray...)
 	query.from = slice
+	// the combined rows are passed through as they are (an empty select list
+	// would be taken for an all-aggregate one) and UNION without ALL dedups
 	query.selectDefinition = sqlparser.SelectExprs{}
-	query.selectDefinition.Exprs = make([]sqlparser.SelectExpr, 0)
+	query.selectDefinition.Exprs = []sqlparser.SelectExpr{&sqlparser.StarExpr{}}
+	query.distinct = expr.Distinct
 	err = BuildLimit(query, expr.Limit)
 	if err != nil {
 		return err
